@@ -349,6 +349,8 @@ var confusable = [][2]string{
 	{"GPL-2.0-only", "GPL-2.0-only WITH Classpath-exception-2.0"}, {"GPL-2.0+ WITH Bison-exception-2.2", "GPL-2.0+ WITH Classpath-exception-2.0"},
 	{"GPL-2.0-only", "GPL-2.0"}, {"LGPL-2.1-only", "LGPL-2.1+"}, {"AGPL-1.0", "AGPL-1.0-only"}, {"CC-BY-3.0", "CC-BY-NC-3.0"}, {"MPL-2.0", "MPL-2.0-no-copyleft-exception"},
 	{"GFDL-1.1-invariants-only", "GFDL-1.1-invariants-or-later"}, {"LicenseRef-MIT", "MIT"}, {"mit", "MIT"}, {"BSD-3-Clause", "BSD-3-Clause-Clear"},
+	{"MIT", "MIT-0"}, {"DocumentRef-MIT:LicenseRef-MIT", "LicenseRef-MIT"}, {"LicenseRef-a1", "LicenseRef-a2"}, {"GPL-2.0+", "GPL-2.0-or-later"}, {"MIT WITH Bison-exception-2.2", "MIT WITH Bison-exception-1.24"},
+	{"OLDAP-2.2", "OLDAP-2.2.1"}, {"CC-BY-SA-2.0", "CC-BY-2.0"}, {"LGPL-2.1-only", "GPL-2.0-only"},
 }
 
 // confusableTrees: small expressions holding both terms of a confusable pair, in both orders
